@@ -149,3 +149,14 @@ Lemma nonmutators_never_write_or_bump_holds : forallb path_row_pure path_facts =
 Proof. vm_compute. reflexivity. Qed.
 Lemma path_facts_nonempty : Nat.leb 300 (length path_facts) = true.
 Proof. vm_compute. reflexivity. Qed.
+
+(* ---------- noexcept boundaries on checked paths (fix f1f44c5) and version checks of the range / raw-reading entry points (fix f5d4e4e) ---------- *)
+(* from no client-visible operator (++, --, ->, *, +=) of HashSet / TreeSet / HashMultiMap iterators, DataRawIterator, DataRowIterator is a
+   noexcept member function reachable that calls a checked, may-throw handle operation or throws: in exception mode the report
+   (std::invalid_argument) can always propagate to the client instead of ending in std::terminate *)
+Lemma no_noexcept_on_checked_paths_holds : noexcept_checked_paths = [] /\ Nat.leb 10 client_operators_scanned = true.
+Proof. split; reflexivity. Qed.
+(* DataTable::pvAssign / pvRemove(begin,end), DataSelection::Add(begin,end) check every row reference (`rowRef.GetRaw()`), and
+   DataSelection::pvSort / pvGroup / pvBinarySearch(columns) check the selection's keeper before touching the raws *)
+Lemma stale_check_sites_hold : forallb (fun r => snd r) stale_check_sites = true /\ Nat.leb 6 (length stale_check_sites) = true.
+Proof. split; vm_compute; reflexivity. Qed.
